@@ -62,4 +62,16 @@ TEXTS = {
         "note": "The 128 probe implementers are a generated, committed file (harness/vchecks/src/probes.rs).",
         "technique": "grammar-based property testing with round-trip oracle + exhaustive enumeration of override patterns",
     },
+    "C12": {
+        "level": "Differential generated-input search: 717 wrapper instantiations (10 wrappers over 15 inner targets, 81 two-level compositions over 7) against the wrapped type's own conversion on the same item, over a fixed pool of 43 items of every form plus random items from the meta grammar; from_none checked against the statement's table.",
+        "ref": "DESIGN.md section 3 C12",
+        "note": "Each wrapper's documented behaviour is a 5-line model function composed inside-out; spans compared as byte ranges.",
+        "technique": "differential property-based testing (wrapper vs wrapped type)",
+    },
+    "C18": {
+        "level": "Part a is exhaustive over the run-time shape-set API (16 sets x 15 bodies x 5 carriers). Part b drives derived receivers with supports(..) over all bodies (see DESIGN.md).",
+        "ref": "DESIGN.md section 3 C18",
+        "note": "The documented table is four lines (tuple admits newtype, not the reverse).",
+        "technique": "exhaustive enumeration against the documented table",
+    },
 }
